@@ -1,4 +1,5 @@
 import WfProofs.KeyedLockGlobal
+import WfProofs.KeyedLockExt
 /-!
 # C25 — the keyed lock gives per-key mutual exclusion and cleans up
 
@@ -279,3 +280,42 @@ example :
     | 2 => exact ⟨2, Nat.le_refl _, by decide⟩
     | n + 3 => rw [hstable n] at hn; exfalso; revert hn; decide
 
+
+/-! ## extensions: draining, cancelled waiters -/
+
+/-- Deadlock freedom of every key, from every reachable state: there is a continuation
+made of fairness steps for `k` only (holder leaves / scheduled head of the queue runs — no
+cancellation, no help from other keys), at most `holders + 2·waiters` long, after which key
+`k` has no lock state at all.  So whatever the history (cancellations at any await
+included), a key never gets into a state from which its entry cannot be cleaned up. -/
+theorem C25_key_drains (acts : List Act) (k : Nat) :
+    ∃ cont : List Act, cont.length ≤ drainMeasure ((run acts).slot k) ∧
+      progressCount k (run acts) cont = cont.length ∧ (∀ x ∈ cont, x.key = k) ∧
+      (run (acts ++ cont)).slot k = {} := by
+  obtain ⟨cont, h1, h2, h3, h4⟩ := c25x_drain (k := k) _ (ginv_run acts) (Nat.le_refl _)
+  exact ⟨cont, h1, h2, h3, by rw [run_append]; exact h4⟩
+
+/-- non-vacuity: holder 1, cancelled waiter 2, live waiter 3: measure 5, and the state is not empty. -/
+example :
+    drainMeasure ((run [⟨7, .enter 1⟩, ⟨7, .enter 2⟩, ⟨7, .enter 3⟩, ⟨7, .cancel 2⟩]).slot 7) = 5 ∧
+    (run [⟨7, .enter 1⟩, ⟨7, .enter 2⟩, ⟨7, .enter 3⟩, ⟨7, .cancel 2⟩]).slot 7 ≠ {} ∧
+    (run ([⟨7, .enter 1⟩, ⟨7, .enter 2⟩, ⟨7, .enter 3⟩, ⟨7, .cancel 2⟩] ++
+          [⟨7, .exit 1⟩, ⟨7, .resume 2⟩, ⟨7, .resume 3⟩, ⟨7, .exit 3⟩])).slot 7 = {} := by decide
+
+/-- A cancelled waiter (cancelled while pending, or after it had been handed the lock)
+never has to wait for anybody: in every reachable state its next task step is enabled,
+removes it from the queue and the refcount, and lets nobody into the critical section
+in its place by that step (the hand-over to the next waiter is a wake-up, see
+`C25_no_lost_wakeup`). -/
+theorem C25_cancelled_waiter_leaves (acts : List Act) (k a : Nat) (l : Lock)
+    (hl : ((run acts).slot k).lock = some l)
+    (hc : findW a l.waiters = some .cancelled ∨ findW a l.waiters = some .wokenCancelled) :
+    ∃ s', step (run acts) ⟨k, .resume a⟩ = .ok s' ∧ a ∉ ids (s'.slot k) ∧
+      (s'.slot k).inside = ((run acts).slot k).inside := by
+  have hg := ginv_run acts
+  obtain ⟨st', hst, h1, h2⟩ := c25x_cancelled_leaves (hg.2 k).1 (hg.2 k).2 hl hc
+  refine ⟨(run acts).set k st', by simp [step, hg.1, hst], ?_, ?_⟩ <;> simpa [KL.set]
+
+example :
+    ((run [⟨7, .enter 1⟩, ⟨7, .enter 2⟩, ⟨7, .enter 3⟩, ⟨7, .exit 1⟩, ⟨7, .cancel 2⟩]).slot 7).lock
+      = some ⟨false, [(2, .wokenCancelled), (3, .pending)]⟩ := by decide
